@@ -1175,7 +1175,7 @@ func genEvm(r *hx.Rand) string {
 
 var gasChoices = []uint64{0, 1, 19999, 20000, 30000, 200000, 2000000, 30000000}
 
-// the two expensive witnesses (thorough tier only: ~30 s each)
+// the three expensive witnesses (thorough tier only: ~30 s each)
 func heavyLine(i int) string {
 	ontA := nutils.OntContractAddress
 	a := &asm{}
@@ -1186,6 +1186,20 @@ func heavyLine(i int) string {
 		}
 		a.pushBytes([]byte("transfer")).pushBytes(ontA[:]).pushI(0).syscall("Ontology.Native.Invoke")
 		return fmt.Sprintf("V 200000 %s", hx.Hex(a.b))
+	}
+	if i == 2 { // EQUAL on two structs holding separately built arrays nested 2.5*10^5 deep: reflect.DeepEqual recurses ~2 KB of stack per level
+		nest := func() {
+			a.pushI(0).op(opNEWARRAY).pushI(250000)
+			start := len(a.b)
+			a.op(opSWAP).pushI(0).op(opNEWARRAY, opDUP).pushI(0).op(opAPPEND, opDUP, opROT, opAPPEND, opSWAP, opDEC, opDUP)
+			a.jmp(opJMPIF, start-len(a.b))
+			a.op(opDROP)
+			a.pushI(0).op(opNEWSTRUCT, opDUP, opROT, opAPPEND) // struct [nest]
+		}
+		nest()
+		nest()
+		a.op(opEQUAL)
+		return fmt.Sprintf("V 8000000 %s", hx.Hex(a.b))
 	}
 	// x = [0, x] a million times (13 opcodes per level), no cycle anywhere. The node's 1 GB stack lasts for ~2.1 million levels
 	// (3*10^7 gas: what one Contract.Create costs); the worker's 384 MB for ~8*10^5
@@ -1199,7 +1213,7 @@ func heavyLine(i int) string {
 }
 
 func Gen(r *hx.Rand, tier string, i int) string {
-	if tier == "thorough" && i < 2 {
+	if tier == "thorough" && i < 3 {
 		return heavyLine(i)
 	}
 	k := r.Intn(100)
